@@ -76,6 +76,8 @@ func HostileValues() []any {
 		map[string]string{"a": "s", "f": "t"}, map[string][]string{"a": {"x"}}, map[string]map[string]any{"a": {"b": 1}}, map[string]*int{"a": &one}, map[string]NamedInt{"a": 1},
 		map[string]any{}, map[string]string{}, map[string]any{"": 1}, map[string]any{"a": nil}, map[string]int32{"a": 1}, map[string]uint{"a": 1}, map[string]time.Time{"a": BaseTime},
 		map[string]struct{}{"a": {}}, map[string]func(){"a": nil}, map[string]chan int{"a": nil}, map[[2]int]string{{1, 2}: "x"},
+		// named string keys over element types the providers do not convert
+		map[KeyStr][]string{"a": {"x"}, "f": {"y", "z"}}, map[KeyStr]int64{"a": 1, "f": 2}, map[KeyStr]time.Time{"a": BaseTime}, map[KeyStr]*int{"a": &one}, map[NamedStr]map[string]any{"a": {"b": 1}}, map[KeyStr]struct{ A int }{"a": {1}},
 		// structs
 		HStruct{A: "x", b: 2, C: &one, D: []string{"d"}}, &HStruct{A: "y"}, HStruct{HEmb: &HEmb{E: "e"}}, struct{}{}, struct{ a, f int }{1, 2}, struct{ A, F any }{nil, nil},
 		struct{ A *HStruct }{nil}, struct {
